@@ -367,7 +367,24 @@ def fit_cases(draw, **kw):
     return case
 
 
+NUMERICAL_BREAKDOWN = ("must not contain infs or NaNs", "Residuals are not finite", "Maximum number of iterations", "SVD did not converge",
+                       "x0` is infeasible", "Singular matrix", "Non-finite")
+
+
 def run_fit(case, **kw):
+    """optimize(raise_exception=True); an optimiser that steps out of the finite domain of the model (overflowing exp, NNLS on a
+    non-finite matrix, ...) is not a statement of any property about *results*: Discard, counted."""
+    from vlib.core import Discard
+
+    try:
+        return _run_fit(case, **kw)
+    except Exception as e:  # noqa: BLE001
+        if any(m in str(e) for m in NUMERICAL_BREAKDOWN):
+            raise Discard("optimiser left the finite domain of the model") from e
+        raise
+
+
+def _run_fit(case, **kw):
     from glotaran.optimization.optimize import optimize
 
     scheme = make_scheme(case, maximum_number_function_evaluations=case.get("max_nfev", 3),
